@@ -124,7 +124,7 @@ theorem Loop.toFun (H : Compat T) : ∀ {m left ks e krest}, Loop T m left ks e 
     have hg1 := hf1 g (by simp only [List.length_cons] at hfuel ⊢; omega)
     have hg2 := hf2 g (by simp only [List.length_cons] at hfuel; omega)
     simp only [bp] at hlt hg1
-    simp [Impl.loop, htk, TK.kind, hlt, H.ledOp, H.infix0, hg1, hg2]
+    simp [Impl.loop, htk, TK.kind, hlt, H.ledOp, H.infix0, H.infixSub0, hg1, hg2]
 theorem ItemsR.toFun (H : Compat T) : ∀ {ks its krest}, ItemsR T ks its krest →
     krest.length < ks.length ∧ ∀ ts : List LTok, ts.map (·.tk) = ks →
       ∃ rest, rest.map (·.tk) = krest ∧
